@@ -535,6 +535,7 @@ class G:
         self.funcs[name] = {"arity": arity, "defaults": defaults, "takes": takes, "params": params, "star": star,
                             "kwonly": kwonly}
         self.emit("def %s(%s):" % (name, ", ".join(sig)), 0)
+        self.vars.pop(name, None)       # the name now holds a function: never printed (its repr has an address)
         local = {}
         if takes != "any":
             for p in params:
@@ -591,6 +592,7 @@ class G:
     def def_class(self):
         r = self.rng
         name = r.choice(CLASS_NAMES)
+        self.vars.pop(name, None)
         self.classes.append(name)
         self.shape.add("class")
         base = ""
